@@ -291,6 +291,7 @@ func (s *sim) mkPod(p *PodSpec) *corev1.Pod {
 	} else if p.Node != "" {
 		pod.Status.Conditions = append(pod.Status.Conditions, corev1.PodCondition{Type: corev1.PodReady, Status: corev1.ConditionTrue})
 	}
+	s.frameDecoratePod(pod, p) // C18: PodSpec.Ext
 	return pod
 }
 
